@@ -85,6 +85,15 @@ pub enum Tr {
     Result(String, String),
 }
 
+/// set when an activity was ended by the point limit; read and cleared by the explorer after each execution
+pub static DIVERGED: std::sync::atomic::AtomicBool = std::sync::atomic::AtomicBool::new(false);
+pub static MAX_ACTIVITY_POINTS: AtomicU64 = AtomicU64::new(0);
+
+pub fn point_limit() -> u64 {
+    static L: std::sync::OnceLock<u64> = std::sync::OnceLock::new();
+    *L.get_or_init(|| std::env::var("VERIF_POINT_LIMIT").ok().and_then(|s| s.parse().ok()).unwrap_or(300_000))
+}
+
 /// T-mode controller state (baton)
 pub struct Ctl {
     pub running: usize,
@@ -105,6 +114,8 @@ pub struct World {
     pub want_dumps: AtomicU8,
     pub want_writes: AtomicBool,
     pub points: AtomicU64,
+    /// scheduling points passed by the running activity (A-mode)
+    pub activity_points: AtomicU64,
     /// classes of points that may preempt (T-mode); empty = all
     pub ctl: Mutex<Ctl>,
     pub cv: Condvar,
@@ -141,6 +152,7 @@ impl World {
             want_dumps: AtomicU8::new(DUMP_NONE),
             want_writes: AtomicBool::new(true),
             points: AtomicU64::new(0),
+            activity_points: AtomicU64::new(0),
             ctl: Mutex::new(Ctl {
                 running: 0,
                 budget: None,
@@ -222,6 +234,12 @@ impl verif::Hooks for World {
     fn point(&self, _class: &'static str, _pid: &str, _tid: &str) {
         self.points.fetch_add(1, Ordering::Relaxed);
         if !self.tmode.load(Ordering::Relaxed) {
+            // an activity that passes this many scheduling points without returning is spinning
+            // inside the engine: end it (once) so that the exploration itself always terminates
+            if self.activity_points.fetch_add(1, Ordering::Relaxed) == point_limit() {
+                DIVERGED.store(true, Ordering::SeqCst);
+                panic!("VERIF: an engine activity passed {} scheduling points without returning", point_limit());
+            }
             return;
         }
         let me = ME.with(|m| m.get());
@@ -573,9 +591,11 @@ impl Session {
         self.w.push_trace(Tr::Begin(label.clone()));
         let w = self.w.clone();
         let kind = p.kind;
+        self.w.activity_points.store(0, Ordering::Relaxed);
         let r = catch_unwind(AssertUnwindSafe(|| {
             run_pending(&w, &mut p);
         }));
+        MAX_ACTIVITY_POINTS.fetch_max(self.w.activity_points.load(Ordering::Relaxed), Ordering::Relaxed);
         if r.is_err() {
             self.panics.push(label);
             if kind == Kind::Send {
@@ -612,7 +632,9 @@ impl Session {
     pub fn client<F: FnOnce(&Engine) -> acts::Result<()>>(&mut self, label: &str, f: F) -> Result<(), String> {
         self.w.push_trace(Tr::Begin(format!("client {label}")));
         let e = self.engine.clone();
+        self.w.activity_points.store(0, Ordering::Relaxed);
         let r = catch_unwind(AssertUnwindSafe(|| f(&e)));
+        MAX_ACTIVITY_POINTS.fetch_max(self.w.activity_points.load(Ordering::Relaxed), Ordering::Relaxed);
         let res = match r {
             Ok(Ok(())) => Ok(()),
             Ok(Err(err)) => Err(err.to_string()),
